@@ -243,7 +243,7 @@ def run():
         vf.log("drivers done at %.0fs: %d stylesheets (level A %d records, level B %d)" % (time.time() - chk.t0, len(texts), len(la), len(lb)))
         to = 14400 if thorough else 3600     # safety nets only (the machine is shared); a timeout is never a verdict
         with ThreadPoolExecutor(max_workers=2) as ex:
-            ja = ex.submit(_judge, chk, sd, la, "A", 6, to)
+            ja = ex.submit(_judge, chk, sd, la, "A", 12 if thorough else 6, to)
             jb = ex.submit(_judge, chk, sd, lb, "B", 2, to)
             (bada, fa, ska), (badb, fb, skb) = ja.result(), jb.result()
         if ska or skb:
